@@ -13,6 +13,7 @@ import (
 	"path/filepath"
 	"strings"
 	"sync"
+	"testing/synctest"
 	"time"
 
 	"github.com/prometheus/client_golang/prometheus"
@@ -42,6 +43,7 @@ import (
 	outboxpartstore "github.com/jdillenkofer/pithos/internal/storage/metadatapart/partstore/outbox"
 	sqlpartstore "github.com/jdillenkofer/pithos/internal/storage/metadatapart/partstore/sql"
 	"github.com/jdillenkofer/pithos/verifharness/seams"
+	"github.com/jdillenkofer/pithos/verifharness/sim"
 )
 
 // ScratchRoot is the per-process directory all run directories live in.
@@ -542,6 +544,12 @@ func (w *World) Start(ctx context.Context) error {
 		return err
 	}
 	w.started = true
+	// Let the freshly started background loops reach their first blocking point before the
+	// caller goes on: the GC loop samples the write counter when it starts, and whether it sees
+	// a set-up write made right after Start would otherwise be a real-time race.
+	if s := sim.Active(); s == nil || s.IsRoot() {
+		synctest.Wait()
+	}
 	return nil
 }
 
